@@ -156,6 +156,7 @@ type Analyzer struct {
 	wireIDs       map[uint64]bool    // node ids used by wire-level harness peers
 	elXfer        map[[3]uint64]bool // (cid, candidate, term) -> the election had transfer permission
 	alias         map[uint64]uint64  // virtual node id -> peer id it speaks as (engine B)
+	nutGone       bool
 	wireQ         []*ev.Rec          // requests announced by the wire-level peer, not yet handled by the node
 	cfgPayload    map[[3]uint64]*ev.Cfg
 	ticks         int64
@@ -568,8 +569,18 @@ func (a *Analyzer) Feed(r *ev.Rec) {
 		a.stat("wire-replies:" + r.RPC + ":" + r.Res)
 		if r.Err != "" {
 			a.wireQ = nil
+			a.stat("wire-reply-errors")
+			a.stat("wire-reply-error:" + r.RPC + ":" + firstWords(r.Err, 4))
+			if !a.nutGone && a.rep.Stats["crashes"] == 0 && a.rep.Stats["graceful-restarts"] == 0 && a.rep.Stats["wiped-restarts"] == 0 {
+				// C18: the peer wrote a whole request on a connection nobody
+				// disturbed; no reply, or one that does not decode, means the
+				// stream lost its framing (something before it was not consumed
+				// exactly)
+				a.find("C18", "reply-missing-or-malformed", "", r.Q, "wire-level peer %d sent a complete %s request (term %d) on an undisturbed connection and got no well-formed reply: %s", r.Src, r.RPC, r.ReqTerm, r.Err)
+			}
 		}
 	case "nut-gone":
+		a.nutGone = true
 		a.find("C15", "node-stopped-serving", "", r.Q, "the node under test stopped serving while peers kept sending requests")
 	case "end":
 		a.ended = true
